@@ -226,6 +226,12 @@ def parse_tree(s):
 
 
 def canon_tree(s, times=False):
+    if s.startswith("SNAPFAIL"):        # a failed / refused snapshot is its own canonical form (never equal to a tree)
+        return s
+    return _canon_tree(s, times)
+
+
+def _canon_tree(s, times=False):
     """Order-insensitive canonical text of a rendered tree (names, types, bytes[, mtimes])."""
     def go(t):
         if t[0] == "F":
